@@ -402,6 +402,22 @@ def pc_leaves(name, variant="int"):
     return out
 
 
+def build_cq(name):
+    """Curved composite shapes built with the constructors."""
+    from . import lib
+
+    big = build_leaf("Q.c16")
+    big.scale(3.0, 3.0)
+    if name == "ringc":
+        return lib.ConnectedShape([big, build_leaf("Q.lens@cw")])
+    if name == "twoc":
+        return lib.DisjointShape([build_leaf("Q.c8s"), build_leaf("Q.c8far")])
+    if name == "xringc":
+        big.invert()
+        return lib.DisjointShape([big, build_leaf("Q.blob")])
+    raise KeyError(name)
+
+
 # --------------------------------------------------------------------------- expressions
 BINOPS = ("|", "&", "-", "^", "+", "*")
 
@@ -414,6 +430,8 @@ def expr_id(e):
         return "warm:" + e[1]
     if t == "MV":
         return "moved(%s by %s,%s)" % (expr_id(e[1]), e[2], e[3])
+    if t == "CQ":
+        return "CQ." + e[1]
     if t == "PC":
         return "PC." + e[1] + "#" + (e[2] if len(e) > 2 else "int")
     if t == "V":
@@ -433,7 +451,7 @@ def expr_leaves(e):
     t = e[0]
     if t in ("L", "V", "PC", "WL"):
         return [e]
-    if t == "MV":
+    if t in ("MV", "CQ"):
         return [e]
     if t in ("E", "W"):
         return []
@@ -452,6 +470,8 @@ def lib_eval(e, trace=None):
         return build_leaf(e[1])
     if t == "WL":
         return build_warm_leaf(e[1])
+    if t == "CQ":
+        return build_cq(e[1])
     if t == "MV":
         # an object with a past: used in operators and queries, then moved in place
         X = lib_eval(e[1])
@@ -498,6 +518,8 @@ def model_eval(e):
     t = e[0]
     if t in ("L", "WL"):
         return leaf_region(e[1])
+    if t == "CQ":
+        return rg.interpret(build_cq(e[1]))
     if t == "MV":
         dx, dy = rg.ex(parse_num(e[2])), rg.ex(parse_num(e[3]))
         return model_eval(e[1]).image(lambda p: (p[0] + dx, p[1] + dy))
